@@ -190,7 +190,9 @@ func (t *TabularGraph) getRow(source, collection, id string) *Row {
 	var row *Row
 	if rowChan, err := t.client.GetRowsByID(context.Background(), source, collection, c); err == nil {
 		for i := range rowChan {
-			row = i
+			if i.Id != "" {
+				row = i
+			}
 		}
 	} else {
 		log.Errorf("Row not read: %s", err)
@@ -210,7 +212,9 @@ func (t *TabularGraph) GetVertex(key string, load bool) *gdbi.Vertex {
 			if rowChan, err := t.client.GetRowsByID(context.Background(), v.config.Data.Source, v.config.Data.Collection, c); err == nil {
 				var row *Row
 				for i := range rowChan {
-					row = i
+					if i.Id != "" {
+						row = i
+					}
 				}
 				if row != nil {
 					o := gdbi.Vertex{ID: v.prefix + row.Id, Label: v.config.Label, Data: row.Data.AsMap(), Loaded: true}
@@ -444,6 +448,12 @@ func rowRequestVertexPipeline(ctx context.Context, prefix string,
 				}
 				delete(reqMap, r.RequestID)
 				reqSync.Unlock()
+				if r.Id == "" {
+					//no such row: the request is answered without an element, so that the
+					//multiplexer, which waits for one answer per request, moves on
+					out <- nil
+					continue
+				}
 				outReq.Vertex = &o
 				out <- outReq
 			}
